@@ -672,8 +672,9 @@ func ruleC04R45(r *Run) {
 					continue
 				}
 				inv = false
+				// a try counter counts up or down by one
 				bo, ok := er.(*ssa.BinOp)
-				if !(ok && bo.Op == token.ADD && p.resolve(bo.X) == ssa.Value(ph) && isConstOne(p.resolve(bo.Y))) {
+				if !(ok && (bo.Op == token.ADD || bo.Op == token.SUB) && p.resolve(bo.X) == ssa.Value(ph) && isConstOne(p.resolve(bo.Y))) {
 					counter = false
 				}
 			}
@@ -691,7 +692,7 @@ func ruleC04R45(r *Run) {
 				for _, ref := range *ph.Referrers() {
 					switch x := ref.(type) {
 					case *ssa.BinOp:
-						if _, cmp := negOp[x.Op.String()]; !cmp && x.Op != token.ADD {
+						if _, cmp := negOp[x.Op.String()]; !cmp && x.Op != token.ADD && !(x.Op == token.SUB && x.X == ssa.Value(ph)) {
 							okState = false
 						}
 					case *ssa.DebugRef, *ssa.MakeInterface, *ssa.Phi:
@@ -816,10 +817,15 @@ func ruleC04R5(r *Run) {
 		}
 		r.Floor("removeGroup calls in prune", n, 1)
 		// the non-discard edge advances
-		for _, l := range loopsOf(fn) {
+		for _, cs := range p.callsTo(fn, "(*recordedBits).removeGroup") {
+			l := innermostLoop(cs.Instr)
+			if l == nil {
+				continue
+			}
 			for _, in := range l.Header.Instrs {
+				// the loop index: what removeGroup is called with
 				ph, ok := in.(*ssa.Phi)
-				if !ok || ph.Comment != "i" {
+				if !ok || p.resolve(cs.Arg(0)) != ssa.Value(ph) {
 					continue
 				}
 				for i, e := range ph.Edges {
@@ -832,7 +838,7 @@ func ruleC04R5(r *Run) {
 					if er == ssa.Value(ph) {
 						r.Check("(*recordedBits).prune#stay", pred.Instrs[0].Pos(), factContains(facts, ".discard") && holdsSuffix(facts, ".discard", "true"), "index stays after a removal", "index stays without a removal")
 					} else {
-						r.Check("(*recordedBits).prune#advance", pred.Instrs[0].Pos(), p.expr(er) == "(φi + 1)" && holdsSuffix(facts, ".discard", "false"), "index advances past kept groups", "index update of prune changed: "+p.expr(er))
+						r.Check("(*recordedBits).prune#advance", pred.Instrs[0].Pos(), isIncrementOf(p, er, ph) && holdsSuffix(facts, ".discard", "false"), "index advances past kept groups", "index update of prune changed: "+p.expr(er))
 					}
 				}
 			}
@@ -843,7 +849,7 @@ func ruleC04R5(r *Run) {
 		for _, fa := range p.fieldAccesses("recordedBits") {
 			if p.within(fa.Fn, fn) && fa.Field == "data" && fa.Kind == "write" {
 				ex := p.expr(fa.Instr.(*ssa.Store).Val)
-				okData = ex == "builtin:append($rec.data[:alloc(g).begin], $rec.data[alloc(g).end:])"
+				okData = ex == "builtin:append($rec.data[:copy($rec.groups[$i]).begin], $rec.data[copy($rec.groups[$i]).end:])"
 				if !okData {
 					r.Fail("(*recordedBits).removeGroup#data", fa.Instr.Pos(), "removeGroup rewrites data as "+ex+" (expected append(data[:g.begin], data[g.end:]...))")
 				}
@@ -853,10 +859,10 @@ func ruleC04R5(r *Run) {
 		okG := false
 		for _, b := range p.body(fn) {
 			for _, in := range b.Instrs {
-				if st, ok := in.(*ssa.Store); ok && p.expr(st.Addr) == "&alloc(g)" && p.expr(st.Val) == "$rec.groups[$i]" {
+				if st, ok := in.(*ssa.Store); ok && p.expr(st.Addr) == "&copy($rec.groups[$i])" && p.expr(st.Val) == "$rec.groups[$i]" {
 					okG = true
 				}
-				if bo, ok := in.(*ssa.BinOp); ok && p.expr(bo) == "(alloc(g).end - alloc(g).begin)" {
+				if bo, ok := in.(*ssa.BinOp); ok && p.expr(bo) == "(copy($rec.groups[$i]).end - copy($rec.groups[$i]).begin)" {
 					okN = true
 				}
 			}
@@ -874,8 +880,8 @@ func ruleC04R5(r *Run) {
 				if strings.HasSuffix(a, "].begin") || strings.HasSuffix(a, "].end") {
 					n++
 					field := a[strings.LastIndex(a, ".")+1:]
-					want := "(" + strings.TrimPrefix(a, "&") + " - (alloc(g).end - alloc(g).begin))"
-					guardOK := holds(p.facts(st), strings.TrimPrefix(a, "&"), ">=", "alloc(g).end")
+					want := "(" + strings.TrimPrefix(a, "&") + " - (copy($rec.groups[$i]).end - copy($rec.groups[$i]).begin))"
+					guardOK := holds(p.facts(st), strings.TrimPrefix(a, "&"), ">=", "copy($rec.groups[$i]).end")
 					r.Check("(*recordedBits).removeGroup#rebase."+field, st.Pos(), p.expr(st.Val) == want && guardOK && okN, "offsets at or after the removed span are rebased by its length", "rebasing of "+field+" changed: "+p.expr(st.Val)+" under "+factsStr(p.facts(st)))
 				}
 			}
@@ -993,7 +999,7 @@ func ruleC04R48(r *Run) {
 	okPos := false
 	for _, b := range p.body(cl) {
 		for _, in := range b.Instrs {
-			if st, ok := in.(*ssa.Store); ok && p.expr(st.Addr) == "^skipped" {
+			if st, ok := in.(*ssa.Store); ok && p.resultCellIndex(st.Addr, cl.Parent()) == 1 { // the 'skipped' result of runAction
 				// path-sensitively: every way for the stored value to be true passes the position comparison
 				okPos = true
 				var must func(v ssa.Value, d int) bool
@@ -1007,7 +1013,7 @@ func ruleC04R48(r *Run) {
 						bv, isB := constBool(x)
 						return isB && !bv
 					case *ssa.BinOp:
-						return p.expr(x) == "(invoke:bitStream.drawn($t.s) == $drawn)"
+						return p.isEq(x, "invoke:bitStream.drawn($t.s)", "$drawn")
 					case *ssa.Phi:
 						for i, e := range x.Edges {
 							if must(e, d+1) {
@@ -1062,4 +1068,14 @@ func ruleC04R48(r *Run) {
 		}
 		r.Check("(*recordedBits).drawn", fn.Pos(), ok, "drawn() is the number of words drawn (len(data) when recording, dataLen otherwise)", "drawn() no longer reports the number of words drawn for both recording modes")
 	}
+}
+
+// isIncrementOf: v is ph + 1.
+func isIncrementOf(p *Program, v ssa.Value, ph *ssa.Phi) bool {
+	bo, ok := p.resolve(v).(*ssa.BinOp)
+	if !ok || bo.Op != token.ADD || p.resolve(bo.X) != ssa.Value(ph) {
+		return false
+	}
+	c, ok := constInt(p.resolve(bo.Y))
+	return ok && c == 1
 }
